@@ -389,7 +389,8 @@ def wf_selector(I, T):
 
 
 def in_objects(I, info, v):
-    return z3.Contains(info["seq0:_objects"], z3.Unit(v))
+    # `allowed objects`: membership by Python `in` (identity or ==), the same notion the code uses
+    return I.seq_contains_eq(info["seq0:_objects"], v)
 
 
 def valid_selector(I, T, v, info):
@@ -401,14 +402,14 @@ def selector_post(I, info, st, oc):
     T, v = info["T"], info["val"]
     seq0 = info["seq0:_objects"]
     cur = st.heap[info["heap"]["_objects"].oid].seq
-    grow = z3.And(T["check_on_set"] == I.U.FALSE, z3.Not(z3.Contains(seq0, z3.Unit(v))))
+    grow = z3.And(T["check_on_set"] == I.U.FALSE, z3.Not(I.seq_contains_eq(seq0, v)))
     if isinstance(oc, Raise):
         return [("frame/objects-unchanged-on-reject", cur == seq0)]
     return [("frame/objects-extended-only-when-unchecked", cur == z3.If(grow, z3.Concat(seq0, z3.Unit(v)), seq0))]
 
 
 def elem_ok_listsel(I, T, info):
-    return lambda x: z3.Or(z3.And(x == I.U.NONE, aN(I, T)), z3.Contains(info["seq0:_objects"], z3.Unit(x)))
+    return lambda x: z3.Or(z3.And(x == I.U.NONE, aN(I, T)), I.seq_contains_eq(info["seq0:_objects"], x))
 
 
 def valid_listselector(I, T, v, info):
